@@ -325,6 +325,9 @@ type Scanner struct {
 	// Inventory: after scanning a component the scanner reads the list of all properties the
 	// definition holds so far (observation only).
 	Inventory bool `json:"inventory,omitempty"`
+	// Narrow: PostProcessProperties answers with a fresh list of just the properties that carry
+	// the scanner's tag (the container ignores what a processor answers with)
+	Narrow bool `json:"narrow,omitempty"`
 }
 
 type Source struct {
